@@ -50,6 +50,9 @@ func (e *enc) lookupLocal(fr *frame, h *ssa.BasicBlock, phiVals map[*ssa.Phi]Ter
 			if _, isMap := v.Type().Underlying().(*types.Map); isMap {
 				return e.mkT(e.readIn(mem, p), v.Type()), true
 			}
+			if _, isSlice := v.Type().Underlying().(*types.Slice); isSlice && strings.HasPrefix(p.base, "V:") && len(p.path) == 0 {
+				return e.mkT(e.readIn(mem, p), v.Type()), true
+			}
 		}
 		if _, ok := fr.val[v]; ok {
 			return e.mkT(e.value(v), v.Type()), true
@@ -603,6 +606,12 @@ func (e *enc) checkFrame(fr *frame, ct *Contract) {
 		return
 	}
 	fi := e.w.frameOf(fr.fn)
+	if fi.fs && !ct.ModFS {
+		save := fr.cur
+		fr.cur = "true"
+		e.oblige("frame", "false", fr.fn.Pos(), "writes files (ioutil.WriteFile / os.WriteFile) but does not declare `modifies files`")
+		fr.cur = save
+	}
 	if ct.Pure {
 		goal, text := "true", "pure function: writes no package-level state and nothing through pointers"
 		if len(fi.writes) > 0 || fi.heap || fi.dynamic {
